@@ -29,3 +29,8 @@ def run(chk):
     chk.exhaustive = True
     chk.assume('table modules contain only literals, cross references and the two recognised fix-up loops '
                '(checked: anything else ends the run as ANALYSIS-ERROR)')
+
+    chk.rule('C02-K8', 'every argument of the parser functions is used (a flag or structure that is accepted and ignored changes how positions are named)')
+    from . import forwarding as _fw
+    nd_ = _fw.dead_params(chk, c, 'C02-K8', lambda fi: fi.module.name == 'parser')
+    chk.floor('parameters examined (C02-K8)', nd_, 60)
